@@ -159,12 +159,20 @@ func treeReplay(args []string) {
 		var beh []Action
 		must(json.Unmarshal(sc.Bytes(), &beh))
 		must(enc.Encode(map[string]any{"a": map[string]string{"a": "reset"}}))
-		s := NewSystem(topo)
-		for _, pn := range []string{"p1", "p2"} {
+		// besides the two peers of the specification there is a mute one (its connection cannot be written to) that
+		// subscribed to node management first: what the others are sent must not depend on it
+		t2 := *topo
+		t2.Peers = append([]string{"m0"}, topo.Peers...)
+		s := NewSystem(&t2)
+		for _, pn := range []string{"m0", "p1", "p2"} {
 			s.step(Action{"a": "connect", "p": pn})
 			s.step(Action{"a": "discover", "p": pn, "ents": []any{"1", "2"}, "ack": false})
 		}
+		s.step(Action{"a": "sub", "p": "m0", "c": "nm", "s": "NM", "ft": "NodeManagement", "ack": false})
 		s.step(Action{"a": "sub", "p": "p1", "c": "nm", "s": "NM", "ft": "NodeManagement", "ack": false})
+		if len(s.dev.SubscriptionManager().SubscriptionsOnFeature(*s.dev.NodeManagement().Address())) != 2 {
+			must(fmt.Errorf("tree-replay setup: the two node management subscriptions were not granted"))
+		}
 		ents := map[string]*spine.EntityLocal{}
 		static0 := ""
 		for _, a := range beh {
